@@ -623,7 +623,8 @@ def holder_of(case):
     from batchie.core import ThetaHolder
     ths = [P.theta_from_case(case["model"], c) for c in case["thetas"]]
     h = ThetaHolder(n_thetas=len(ths))
-    h.thetas = list(ths)
+    for t in ths:
+        h.add_theta(t)
     return h, ths
 
 
@@ -824,14 +825,12 @@ def run_space_temporaries(case, res, sc, h, ths):
             keep = []
             want = []
             for c in combos:
-                hh = ThetaHolder(n_thetas=2)
-                hh.thetas = [ths[i] for i in c]
+                hh = P.make_holder([ths[i] for i in c])
                 keep.append(hh)
                 want.append(cm_of(sc, hh))
             for rnd in (0, 1):
                 for c, w in zip(combos, want):
-                    hh = ThetaHolder(n_thetas=2)       # the previous holder bound to this name dies here
-                    hh.thetas = [ths[i] for i in c]
+                    hh = P.make_holder([ths[i] for i in c])       # the previous holder bound to this name dies here
                     if not cm_same(cm_of(sc, hh), w):
                         res.fail("correlation_matrix with a freshly built holder differs from an equal holder kept alive", case,
                                  {"members": c, "round": rnd}, "identical matrix", signature="C20:temporaries")
@@ -898,7 +897,8 @@ def run_cli_eval(case, res, lines):
             files.append(fn)
         sc = Screen.load_h5(sfn)                                    # what the command line tool will see
         for fn in files:
-            all_thetas += list(ThetaHolder.load_h5(fn).thetas)
+            hl = ThetaHolder.load_h5(fn)
+            all_thetas += [hl.get_theta(k) for k in range(hl.n_thetas)]
         per = [np.asarray(t.predict_viability(sc), dtype=float) for t in all_thetas]
         obs = np.asarray(sc.observations, dtype=float)
         n, K = sc.size, len(per)
